@@ -43,6 +43,36 @@ MUT = {
  "c03-rejected-write-notifies": ("C03", "spine/feature_local.go",
     "func (r *FeatureLocal) processWrite(msg *api.Message) {\n	if err := r.executeWrite(msg); err != nil {",
     "func (r *FeatureLocal) processWrite(msg *api.Message) {\n	if err := r.executeWrite(msg); err != nil {\n		if cd, e := msg.Cmd.Data(); e == nil {\n			if fd := r.functionData(*cd.Function); fd != nil {\n				r.Device().NotifySubscribers(r.Address(), fd.NotifyOrWriteCmdType(nil, nil, false, nil))\n			}\n		}"),
+ "n-answer-invents-reference": ("C01", "spine/send.go",
+    "	addressSource := *requestHeader.AddressDestination\n	addressSource.Device = senderAddress.Device\n\n	var resultData model.ResultDataType",
+    "	addressSource := *requestHeader.AddressDestination\n	addressSource.Device = senderAddress.Device\n	if requestHeader.MsgCounter == nil {\n		requestHeader.MsgCounter = util.Ptr(model.MsgCounterType(0))\n	}\n\n	var resultData model.ResultDataType"),
+ "n-reply-without-reference-rejected": ("C01", "spine/feature_local.go",
+    "	cmdData, _ := message.Cmd.Data()\n	featureRemote := message.FeatureRemote\n",
+    "	cmdData, _ := message.Cmd.Data()\n	featureRemote := message.FeatureRemote\n	if message.RequestHeader.MsgCounterReference == nil {\n		return model.NewErrorTypeFromString(\"reference required\")\n	}\n"),
+ "n-result-source-device-echoed": ("C01", "spine/send.go",
+    "	addressSource := *requestHeader.AddressDestination\n	addressSource.Device = senderAddress.Device\n\n	var resultData model.ResultDataType",
+    "	addressSource := *requestHeader.AddressDestination\n\n	var resultData model.ResultDataType"),
+ "n-notification-carries-no-data": ("C03", "spine/function_data_cmd.go",
+    "func (r *FunctionDataCmd[T]) NotifyOrWriteCmdType(deleteSelector, partialSelector any, partialWithoutSelector bool, deleteElements any) model.CmdType {\n	data := r.DataCopy()",
+    "func (r *FunctionDataCmd[T]) NotifyOrWriteCmdType(deleteSelector, partialSelector any, partialWithoutSelector bool, deleteElements any) model.CmdType {\n	var data *T"),
+ "n-setdata-does-not-notify": ("C01", "spine/feature_local.go",
+    "	if fctData != nil && err == nil {\n		r.Device().NotifySubscribers(r.Address(), fctData.NotifyOrWriteCmdType(nil, nil, false, nil))\n	}\n}\n\nfunc (r *FeatureLocal) UpdateData(",
+    "	_ = fctData\n}\n\nfunc (r *FeatureLocal) UpdateData("),
+ "n-binding-data-lists-all-peers": ("C01", "spine/nodemanagement_binding.go",
+    "	remoteDeviceBindingEntries := r.Device().BindingManager().Bindings(message.FeatureRemote.Device())",
+    "	var remoteDeviceBindingEntries []*api.BindingEntry\n	for _, rd := range r.Device().RemoteDevices() {\n		remoteDeviceBindingEntries = append(remoteDeviceBindingEntries, r.Device().BindingManager().Bindings(rd)...)\n	}"),
+ "n-rejected-write-stores-value": ("C03", "spine/device_local.go",
+    "			err := model.NewErrorTypeFromString(\"write denied due to missing binding\")\n",
+    "			_, _ = localFeature.(*FeatureLocal).updateData(false, *cmdData.Function, cmdData.Value, nil, nil)\n			err := model.NewErrorTypeFromString(\"write denied due to missing binding\")\n"),
+ "r2-gate-lookup-prefix-compare": ("C03", "spine/binding_manager.go",
+    "		if reflect.DeepEqual(item.ClientFeature.Address(), remoteAddress) {\n			return true\n		}",
+    "		ia := item.ClientFeature.Address()\n		same := ia.Device != nil && remoteAddress.Device != nil && *ia.Device == *remoteAddress.Device && ia.Feature != nil && remoteAddress.Feature != nil && *ia.Feature == *remoteAddress.Feature && len(ia.Entity) <= len(remoteAddress.Entity)\n		for i := range ia.Entity {\n			if same && ia.Entity[i] != remoteAddress.Entity[i] {\n				same = false\n			}\n		}\n		if same {\n			return true\n		}"),
+ "r2-unbind-by-object-identity": ("C03", "spine/binding_manager.go",
+    "		if item.ClientFeature.Device().Ski() != remoteDevice.Ski() ||\n			!reflect.DeepEqual(*itemAddress, clientAddress) ||\n			!reflect.DeepEqual(item.ServerFeature, serverFeature) {\n			newBindingEntries = append(newBindingEntries, item)\n		}\n	}\n\n	if len(newBindingEntries) == len(c.bindingEntries) {\n		return errors.New(\"could not find requested binding to be removed\")\n	}\n",
+    "		_ = itemAddress\n		if item.ClientFeature != clientFeature || item.ServerFeature != serverFeature {\n			newBindingEntries = append(newBindingEntries, item)\n		}\n	}\n"),
+ "r2-unsubscribe-by-object-identity": ("C03", "spine/subscription_manager.go",
+    "		if item.ClientFeature.Device().Ski() != remoteDevice.Ski() ||\n			!reflect.DeepEqual(itemAddress.Device, clientAddress.Device) ||\n			!reflect.DeepEqual(itemAddress.Entity, clientAddress.Entity) ||\n			!reflect.DeepEqual(itemAddress.Feature, clientAddress.Feature) ||\n			!reflect.DeepEqual(item.ServerFeature, serverFeature) {\n			newSubscriptionEntries = append(newSubscriptionEntries, item)\n		}\n	}\n\n	if len(newSubscriptionEntries) == len(c.subscriptionEntries) {\n		return errors.New(\"could not find requested SubscriptionId to be removed\")\n	}\n",
+    "		_ = itemAddress\n		if item.ClientFeature != clientFeature || item.ServerFeature != serverFeature {\n			newSubscriptionEntries = append(newSubscriptionEntries, item)\n		}\n	}\n"),
  "c03-entity-removal-keeps-bindings": ("C03", "spine/nodemanagement_detaileddiscovery.go",
     "				bindingMgr.RemoveBindingsForEntity(removedEntity)", "				_ = bindingMgr"),
 }
@@ -67,6 +97,17 @@ for n in names:
     keys = sorted(set(re.findall(r"spec failure \[([^\]]+)\]", c.stdout)))
     results[n] = {"exit": c.returncode, "violation": any(l.startswith("VIOLATION") for l in viol), "keys": keys,
                   "no_failing_input": any("no-failing-input-found" in l for l in viol)}
+    # keep the first replay, re-run it on the mutant (must fail) and on /repo (must pass)
+    m = re.search(r"VIOLATION property=\S+ replay=(\S+)", c.stdout)
+    if m and os.path.exists(m.group(1)):
+        keep = os.path.join(ROOT, "selftest", "disp-replay-%s.json" % n)
+        os.makedirs(os.path.dirname(keep), exist_ok=True)
+        rp = json.load(open(m.group(1)))
+        rp["how_to_replay"] = "./check %s quick --replay selftest/disp-replay-%s.json" % (prop, n)
+        json.dump(rp, open(keep, "w"), indent=1)
+        on_mut = sh("timeout 600 ./check %s quick --replay %s" % (prop, keep), cwd=ROOT, env=dict(ENV, VERIF_REPO=WT)).returncode
+        on_head = sh("timeout 600 ./check %s quick --replay %s" % (prop, keep), cwd=ROOT, env=ENV).returncode
+        results[n].update({"replay": os.path.relpath(keep, ROOT), "replay_ops": len(rp.get("ops", [])), "replay_exit_on_mutant": on_mut, "replay_exit_on_repo": on_head})
     print(n, json.dumps(results[n]))
     for l in viol[:4]:
         print("    ", l[:260])
